@@ -410,6 +410,10 @@ def theta_lattice(env, tier, method, n, r, npar):
     atoms = [env.rng('C13', 'theta', npar, k).normal(size=npar) for k in range(G)]
     ret = []
     s0 = [0.1, 1.0, 10.0] if tier == 'quick' else [1e-3, 0.1, 1.0, 10.0, 100.0]
+    if method in ('polar', 'qr'):
+        # the orthonormalising charts are scale invariant: every theta != 0 is admissible, including tiny norms
+        # (an absolute regularisation of the Gram matrix is only visible there)
+        s0 = [1e-8, 1e-5] + s0
     for s in s0:
         for k, g in enumerate(atoms):
             ret.append(('%g*atom%d' % (s, k), s * g))
